@@ -11,11 +11,14 @@
 //	E  System.Runtime.CheckWitness inside contracts deployed on a neotest chain [layer ii]
 //	F  JSON and stack-item decoders of conditions on generated trees            [tree decoders]
 //	G  Signer.DecodeBinary on hand-assembled encodings                          [signer decoder]
+//	H  ScopesFromByte on all 256 bytes (one case)                               [scope byte validity]
 package main
 
 import (
 	"fmt"
 	"os"
+
+	"github.com/nspcc-dev/neo-go/pkg/core/transaction"
 
 	"verif/harness/internal/hx"
 	"verif/harness/internal/prng"
@@ -40,12 +43,12 @@ func main() {
 	}
 	nA := (len(trees2) + treesPerCase - 1) / treesPerCase
 	nB := pick(30, 600)
-	nC := pick(20000, 300000)
+	nC := pick(20000, 200000)
 	nD := pick(4000, 100000)
 	nE := pick(chainQuick, chainThorough)
 	nF := pick(3000, 60000)
 	nG := pick(4000, 100000)
-	total := nA + nB + nC + nD + nE + nF + nG
+	total := nA + nB + nC + nD + nE + nF + nG + 1
 	if f.Cases > 0 && f.Cases < total {
 		total = f.Cases
 	}
@@ -86,6 +89,19 @@ func main() {
 		case k < nA+nB+nC+nD:
 			runDecodeCase(o, k, r, du)
 			o.Count("cases:D-decode")
+		case k >= nA+nB+nC+nD+nE+nF+nG:
+			o.Case(k)
+			for b := 0; b < 256; b++ {
+				obs := "ok"
+				sc, err := transaction.ScopesFromByte(byte(b))
+				if err != nil {
+					obs = "err"
+				} else if byte(sc) != byte(b) || byte(b)&0x0e != 0 || (b&0x80 != 0 && b != 0x80) {
+					o.Fail("scope-byte-admits-invalid", k, "byte=%#x", b)
+				}
+				o.Line(fmt.Sprintf("vs %d", b), obs)
+			}
+			o.Count("cases:H-scope-bytes")
 		case k >= nA+nB+nC+nD+nE+nF:
 			runSignerDecCase(o, k, r, du)
 			o.Count("cases:G-signer-decoder")
